@@ -154,6 +154,14 @@ func checkC17(r *Run) {
 // consistency) and C18 (secrets synthesised at Unlock belong to their entries).
 func ruleBip44SecretCoordinates(r *Run, rule string) {
 	idx := "(uint32(len($0.Entries)) + i)"
+	// ChainIndex, the coordinate every derivation reads, is what the chain was created with and what a reload
+	// restores: the constructor stores its index argument, the file decoder the index parsed from the chain's name
+	if fn := r.fn(rule, "wallet/bip44wallet.readableBip44Chain.toBip44Chain"); fn != nil {
+		fs := r.fieldStores(fn)
+		r.Check(rule, "toBip44Chain: a chain loaded from a wallet file gets the ChainIndex parsed from its chain name", r.P.Pos(fn.Pos()),
+			fs["ChainIndex"] == "uint32(wallet/bip44wallet.stringToChainIndex($0.Chain)#0)", "ChainIndex := "+fs["ChainIndex"])
+		r.RequireOnSuccess(rule, "wallet/bip44wallet.readableBip44Chain.toBip44Chain", req("the chain name parses", "ok(wallet/bip44wallet.stringToChainIndex($0.Chain))"))
+	}
 	// sibling agreement over all call sites of secretFromPrivateKey
 	n := 0
 	for _, fn := range r.P.ModFns {
@@ -177,6 +185,34 @@ func ruleBip44SecretCoordinates(r *Run, rule string) {
 func checkC18(r *Run) {
 	r.Explain = "C18: (R1) decryption robustness: every slice/index on the decoded input of both Decrypt implementations is in bounds, no length arithmetic wraps, and the unauthenticated metadata handed to the KDF / AEAD is validated first (key length, nonce length, r, p; N bounded above); (R2) the three Lock implementations agree on the sequence pack secrets -> serialize -> encrypt -> mark encrypted -> erase clone -> erase wallet -> copy, succeed only after serialisation and encryption succeeded, and each Erase clears every secret its packSecrets exports (eraser covers packer); Unlock succeeds only after decrypt, deserialize and unpack succeeded."
 	r.NotDec = "that ciphertext hides the secrets; wrong-password rejection (AEAD/checksum semantics); exact restoration as a value property"
+	// an encrypted wallet is modified only between Unlock and Lock (GuardUpdate); the one direct path is the bip44
+	// wallet, whose external addresses derive from the stored public chain key and add no secret
+	if fn := r.fn("C18-R7", "wallet.Service.NewAddresses"); fn != nil {
+		ff := r.P.Facts(fn)
+		w := "wallet.Service.getWallet($0, $1)#0"
+		nDirect := 0
+		for _, b := range fn.Blocks {
+			for _, in := range b.Instrs {
+				ci, ok := in.(ssa.CallInstruction)
+				if !ok {
+					continue
+				}
+				cal := ci.Common().StaticCallee()
+				if cal == nil || cal.Parent() != fn {
+					continue
+				}
+				nDirect++
+				var fs []string
+				for _, a := range ff.MustAt(in) {
+					fs = append(fs, a.S)
+				}
+				_, m := matchAny([]string{"!iface:wallet.Wallet.IsEncrypted(" + w + ")", "iface:wallet.Wallet.Type*(" + w + ") == \"bip44\"", "\"bip44\" == iface:wallet.Wallet.Type*(" + w + ")"}, fs)
+				r.Check("C18-R7", "wallet.Service.NewAddresses: addresses are generated on the wallet directly only when it is not encrypted or is a bip44 wallet", r.P.Pos(in.Pos()), m, "an encrypted wallet of another type is modified without Unlock/Lock: secrets added to it stay in plaintext and the password is never checked")
+			}
+		}
+		r.Check("C18-R7", "wallet.Service.NewAddresses: direct generation sites", r.P.Pos(fn.Pos()), nDirect == 2, fmt.Sprint(nDirect))
+		r.RequireAtCall("C18-R7", "wallet.Service.NewAddresses", "wallet.GuardUpdate", 1, req("the guarded path is the encrypted one", "iface:wallet.Wallet.IsEncrypted("+w+")"))
+	}
 	// Lock and Unlock work on clones: the copy helpers of the wallet packages produce one distinct object per
 	// element, never several pointers to one loop-carried variable
 	nl, aliased := loopAliasedAddrs(r.P, "wallet.", "wallet/")
